@@ -131,7 +131,14 @@ def run_order_gfa(
                 + ".gfa"
             )
             out_gfa.append(f_gfa)
-            csv_file = outdir + os.sep + gfa_filename.split(os.sep)[-1][:-4] + "-" + chromosome + ".csv"
+            csv_file = (
+                outdir
+                + os.sep
+                + gfa_filename.split(os.sep)[-1].split(".")[0]
+                + "-"
+                + chromosome
+                + ".csv"
+            )
             out_csv.append(csv_file)
             f_colors = open(csv_file, "w")
             f_colors.write("Name,Color,SN,SO,BO,NO\n")
